@@ -105,12 +105,15 @@ where
     S: Stream<Item = F>,
     F: Future<Output = ()>,
 {
-    let waker = futures::task::noop_waker();
+    // a task that wakes itself (a cooperative yield) is polled again
+    let flag = crate::mock::Flag::new(false);
+    let waker = std::task::Waker::from(flag.clone());
     let mut cx = Context::from_waker(&waker);
     let mut handlers: Vec<Pin<Box<F>>> = vec![];
     let mut ended = false;
     for _ in 0..20_000 {
-        let mut progress = false;
+        let mut progress = flag.is_set();
+        flag.clear();
         if !ended {
             match stream.as_mut().poll_next(&mut cx) {
                 Poll::Ready(Some(f)) => {
@@ -136,7 +139,7 @@ where
         if ended && handlers.is_empty() {
             return false;
         }
-        if !progress {
+        if !progress && !flag.is_set() {
             // nothing is runnable: the stream waits for in-flight requests whose handlers are
             // pending, or the input is exhausted; that is a normal end for this harness
             return !ended && !handlers.is_empty() && false;
@@ -287,6 +290,14 @@ pub fn encode_body<T: Serialize>(codec: Codec, t: &T) -> Vec<u8> {
 }
 
 pub fn request_with_duration(codec: Codec, id: u64, d: Duration) -> Vec<u8> {
+    request_msg(codec, id, d, "m")
+}
+
+pub fn cancel_frame(codec: Codec, request_id: u64) -> Vec<u8> {
+    frame(&encode_body(codec, &ClientMessageMirror::Cancel { trace_context: tctx(1), request_id }))
+}
+
+pub fn request_msg(codec: Codec, id: u64, d: Duration, msg: &str) -> Vec<u8> {
     frame(&encode_body(
         codec,
         &ClientMessageMirror::Request(RequestMirror {
@@ -295,7 +306,7 @@ pub fn request_with_duration(codec: Codec, id: u64, d: Duration) -> Vec<u8> {
                 trace_context: tctx(2),
             },
             id,
-            message: "m".into(),
+            message: msg.into(),
         }),
     ))
 }
@@ -350,30 +361,30 @@ pub fn with_regime<R>(r: Regime, f: impl FnOnce() -> R) -> R {
 }
 
 #[derive(Default)]
-struct S16 {
-    samples: Vec<String>,
-    evals: u64,
-    distinct: HashSet<u64>,
-    failures: Vec<(String, String)>,
-    wellformed: u64,
-    malformed: u64,
+pub struct S16 {
+    pub samples: Vec<String>,
+    pub evals: u64,
+    pub distinct: HashSet<u64>,
+    pub failures: Vec<(String, String)>,
+    pub wellformed: u64,
+    pub malformed: u64,
 }
 
-fn h<T: std::hash::Hash>(t: &T) -> u64 {
+pub fn h<T: std::hash::Hash>(t: &T) -> u64 {
     use std::hash::Hasher;
     let mut s = std::collections::hash_map::DefaultHasher::new();
     t.hash(&mut s);
     s.finish()
 }
 
-fn failure(st: &mut S16, sig: String, msg: String) {
+pub fn failure(st: &mut S16, sig: String, msg: String) {
     if st.failures.len() < 400 {
         st.failures.push((sig, msg));
     }
 }
 
 /// panic site -> stable signature fragment
-fn site(p: &str) -> String {
+pub fn site(p: &str) -> String {
     let loc = p.rsplit(" @ ").next().unwrap_or("");
     let file = loc.rsplit('/').next().unwrap_or(loc);
     let what = if p.contains("invalid deadline") {
@@ -621,10 +632,20 @@ pub fn run_c16(tier: Tier) -> i32 {
         Mutate(Codec, usize),
         Boundary(Codec, Regime),
         Client(Codec, Regime, bool),
+        Flood(Codec),
+        ClientFlood(Codec),
+        ServerAge(Codec),
+        ClientAge(Codec),
+        StubVariant,
     }
+    let flood_n = if tier == Tier::Thorough { 160 } else { 48 };
     let n_frames = 6;
-    let mut jobs = vec![];
+    let mut jobs = vec![Job::StubVariant];
     for codec in [Codec::Json, Codec::Bincode] {
+        jobs.push(Job::Flood(codec));
+        jobs.push(Job::ClientFlood(codec));
+        jobs.push(Job::ServerAge(codec));
+        jobs.push(Job::ClientAge(codec));
         for i in 0..n_frames {
             jobs.push(Job::Mutate(codec, i));
         }
@@ -640,7 +661,7 @@ pub fn run_c16(tier: Tier) -> i32 {
     // Jobs that need a tracing subscriber run afterwards, serially, under one subscriber each
     // (see chain_props::run_c07 for why per-thread subscribers in parallel are unreliable).
     let (jobs, regime_jobs): (Vec<Job>, Vec<Job>) = jobs.into_iter().partition(|j| match j {
-        Job::Mutate(..) => true,
+        Job::Mutate(..) | Job::Flood(_) | Job::ClientFlood(_) | Job::ServerAge(_) | Job::ClientAge(_) | Job::StubVariant => true,
         Job::Boundary(_, r) | Job::Client(_, r, _) => *r == Regime::NoSubscriber,
     });
     let next = AtomicUsize::new(0);
@@ -657,6 +678,8 @@ pub fn run_c16(tier: Tier) -> i32 {
                         if i >= jobs.len() {
                             break;
                         }
+                        // the age jobs advance this thread's paused clock
+                        let now = tokio::time::Instant::now().into_std();
                         match jobs[i] {
                             Job::Mutate(codec, k) => {
                                 let cc = client_corpus(now);
@@ -669,6 +692,11 @@ pub fn run_c16(tier: Tier) -> i32 {
                             }
                             Job::Boundary(codec, regime) => boundary_server_cases(&mut st, codec, regime),
                             Job::Client(codec, regime, mutate) => client_cases(&mut st, codec, regime, now, mutate, all_values),
+                            Job::Flood(codec) => crate::c16_hist::flood_cases(&mut st, codec, flood_n),
+                            Job::ClientFlood(codec) => crate::c16_hist::client_flood_cases(&mut st, codec, flood_n),
+                            Job::ServerAge(codec) => crate::c16_hist::server_age_cases(&mut st, codec).await,
+                            Job::ClientAge(codec) => crate::c16_hist::client_age_cases(&mut st, codec).await,
+                            Job::StubVariant => crate::c16_hist::stub_variant_cases(&mut st),
                         }
                     }
                 }));
@@ -715,8 +743,8 @@ pub fn run_c16(tier: Tier) -> i32 {
         t.evals,
         t.distinct.len() as u64,
         &t.failures,
-        json!({"mutants_still_well_formed": t.wellformed, "mutants_malformed": t.malformed, "jobs": njobs}),
-        "server: for each codec and each of 6 valid client frames, every single-byte substitution (all 256 values for the first frame and in the thorough tier, a boundary value set otherwise), every truncation, boundary length prefixes and every body of length <=2, fed through the real framed serde transport into a real BaseChannel.execute(echo) followed by a well-formed probe request, which must be answered whenever the odd input still decodes to one message; well-typed boundary messages (ids 0/u64::MAX, deadlines 0 .. Duration::MAX, cancels for unused ids, floods of 100 duplicates) under three subscriber regimes (none, tracing_subscriber::fmt, tracing-opentelemetry); client: every deadline a local caller can put in the context, unsolicited/duplicate responses, and every single-byte substitution/truncation of valid response frames into a real dispatch with one call outstanding. Oracle: no panic anywhere (catch_unwind around every subject run), nothing stuck, probe served",
+        json!({"mutants_still_well_formed": t.wellformed, "mutants_malformed": t.malformed, "jobs": njobs, "flood_run_length_bound": flood_n, "connection_ages": crate::c16_hist::ages().iter().map(|a| a.0).collect::<Vec<_>>()}),
+        "server: for each codec and each of 6 valid client frames, every single-byte substitution (all 256 values for the first frame and in the thorough tier, a boundary value set otherwise), every truncation, boundary length prefixes and every body of length <=2, fed through the real framed serde transport into a real BaseChannel.execute(echo) followed by a well-formed probe request, which must be answered whenever the odd input still decodes to one message; well-typed boundary messages (ids 0/u64::MAX, deadlines 0 .. Duration::MAX, cancels for unused ids, floods of 100 duplicates) under three subscriber regimes; floods readable within one poll: with a request held in flight, every pair of run lengths (a, b) up to N of duplicates of it and cancels for an unused id, in both orders; connections of every age in a grid (0 .. 30 years, fresh / having served a request / holding a request in flight) receiving every boundary deadline next; a macro-generated client stub answered with a well-typed response of another method (none, tracing_subscriber::fmt, tracing-opentelemetry); client: every deadline a local caller can put in the context, unsolicited/duplicate responses, and every single-byte substitution/truncation of valid response frames into a real dispatch with one call outstanding. Oracle: no panic anywhere (catch_unwind around every subject run), nothing stuck, probe served",
         t.samples.iter().map(|c| json!({"case": c})).collect(),
     )
 }
